@@ -111,9 +111,9 @@ func tokenize(s string) ([]token, error) {
 		c, l := utf8.DecodeRuneInString(s[i:])
 
 		switch {
-		case unicode.IsSpace(c):
+		case isSpace(c):
 			// ignore
-		case unicode.IsLetter(c) || c == '_':
+		case isIDStart(c):
 			bt, bl := readBareword(s[i:])
 			tnr := tBare
 			if n, ok := keywords[upperASCII(bt)]; ok {
@@ -166,12 +166,22 @@ func tokenize(s string) ([]token, error) {
 	}
 }
 
+// SQLite's tokenizer knows ASCII only: space, tab, newline, form feed and
+// carriage return separate tokens, and every byte with the high bit set is
+// part of an identifier. A no-break space does not end a name.
+func isSpace(c rune) bool {
+	return c == ' ' || c == '\t' || c == '\n' || c == '\f' || c == '\r'
+}
+
+func isIDStart(c rune) bool {
+	return c == '_' || c >= 0x80 || ('a' <= c && c <= 'z') || ('A' <= c && c <= 'Z')
+}
+
 func readBareword(s string) (string, int) {
 	for i, r := range s {
 		switch {
-		case unicode.IsLetter(r):
-		case i > 0 && unicode.IsDigit(r):
-		case r == '_':
+		case isIDStart(r):
+		case i > 0 && (('0' <= r && r <= '9') || r == '$'):
 		default:
 			return s[:i], i
 		}
